@@ -302,6 +302,7 @@ type BytecodeCompiler struct {
 	additionalAbortChecks bool
 	hasDefer              bool
 	pendingCalls          []*bytecodeCall // calls registered for later optimisation by this compiler
+	execBlockEnd          int             // method compiler: offset in the parent right after the block that executes this function
 	mode                  bytecodeCompilerMode
 }
 
@@ -641,6 +642,7 @@ func (c *BytecodeCompiler) InitMethodCompiler(location *position.Location) (Comp
 	c.emitValue(value.Ref(methodCompiler.bytecode), location)
 	c.emit(location.StartPos.Line, bytecode.EXEC)
 	c.emit(location.StartPos.Line, bytecode.POP)
+	methodCompiler.execBlockEnd = c.nextInstructionOffset()
 
 	return methodCompiler, offset
 }
@@ -676,7 +678,10 @@ func (c *BytecodeCompiler) FinishIvarIndicesCompiler(location *position.Location
 func (c *BytecodeCompiler) CompileMethods(location *position.Location, execOffset int) {
 	c.optimiseCalls()
 	c.compileMethodsWithinModule(c.checker.Env().Root, location)
-	if len(c.bytecode.Instructions) > 0 {
+	// the parent may have emitted code after the EXEC block in the meantime
+	// (initialisers of non-static constants), the block can only be cut off
+	// when it is still the last thing in the parent
+	if len(c.bytecode.Instructions) > 0 || c.parent.nextInstructionOffset() != c.execBlockEnd {
 		c.emit(location.EndPos.Line, bytecode.NIL)
 		c.emit(location.EndPos.Line, bytecode.RETURN)
 		return
